@@ -70,7 +70,7 @@ PRODUCES = {"kmeans_fit": "km", "gmm_ml_fit": "gmm", "gmm_map_fit": "map", "isv_
             "jfa_fit": "jfa", "iv_fit": "iv", "isv_fit_array": "isv", "jfa_fit_array": "jfa",
             "wccn_fit": "lin", "whitening_fit": "lin", "isv_enroll": "z_isv",
             "jfa_enroll": "yz_jfa", "isv_enroll_array": "z_isv", "jfa_enroll_array": "yz_jfa"}
-USES = {"isv_score": ["isv", "z_isv"], "jfa_score": ["jfa", "yz_jfa"],
+USES = {"linear_scoring": ["map"], "isv_score": ["isv", "z_isv"], "jfa_score": ["jfa", "yz_jfa"],
         "isv_score_array": ["isv", "z_isv"], "jfa_score_array": ["jfa", "yz_jfa"]}
 
 
@@ -181,6 +181,9 @@ class Pool:
         self.prior.weights = A(case["prior"]["weights"])
         self.prior.means = A(case["prior"]["means"])
         self.prior.variances = A(case["prior"]["variances"])
+        rs_ = np.random.RandomState(len(case["X0"]) * 7 + c)
+        self.offsets = rs_.randn(c, self.X0.shape[1]) * 0.1      # caller-owned channel offsets
+        self.model_means = np.array([np.array(self.prior.means), np.array(self.ubm.means) * 1.1])
         self.stats = [self.ubm.acc_stats(self.X0[rows].copy() if rows else
                                          np.zeros((0, self.X0.shape[1])))
                       for rows in case["stat_rows"]]
@@ -192,7 +195,8 @@ class Pool:
     def arrays(self):
         """Every caller-owned ndarray (for shares_memory checks)."""
         out = [("X0", self.X0), ("X1", self.X1), ("init_c", self.init_c),
-               ("y0", self.y0_arr), ("ys", self.ys_arr)]
+               ("y0", self.y0_arr), ("ys", self.ys_arr), ("offsets", self.offsets),
+               ("model_means", self.model_means)]
         for nm, g in (("ubm", self.ubm), ("prior", self.prior)):
             out += [(f"{nm}.means", np.asarray(g.means)), (f"{nm}.variances", np.asarray(g.variances)),
                     (f"{nm}.weights", np.asarray(g.weights))]
@@ -205,6 +209,7 @@ class Pool:
         dg = {"X0": digest(self.X0), "X1": digest(self.X1), "y0_list": digest(self.y0_list),
               "y0_arr": digest(self.y0_arr), "ys_arr": digest(self.ys_arr),
               "ys_list": digest(self.ys_list), "init_c": digest(self.init_c),
+              "offsets": digest(self.offsets), "model_means": digest(self.model_means),
               "ubm": obj_digest(self.ubm), "prior": obj_digest(self.prior)}
         for i, s in enumerate(self.stats):
             dg[f"stats[{i}]"] = obj_digest(s)
@@ -412,9 +417,13 @@ def _call(pool, o, rec, label):
     if name == "iv_transform":
         return pool.models["iv"].transform(sel), None
     if name == "linear_scoring":
-        models = [pool.prior, pool.ubm] if o["flag"] else np.array([pool.prior.means])
+        v = o["np_seed"] % 3
+        models = [pool.prior, pool.ubm] if v == 0 else (pool.model_means if v == 1
+                                                         else pool.model_means[0])
         test = sel if len(sel) > 1 or o["flag"] else sel[0]
-        return linear_scoring(models, pool.ubm, test, 0, o["flag"]), None
+        ubm = pool.models["map"] if ("map" in pool.models and o["it"] == 2) else pool.ubm
+        off = pool.offsets if o["uw"] else 0
+        return linear_scoring(models, ubm, test, off, o["flag"]), None
     if name == "stats_add":
         fresh = GMMStats(case["c"], case["d"])
         out = fresh
@@ -538,7 +547,7 @@ def run_case(case, replay=None):
             need = NEEDS.get(name)
             if need is not None and need not in pool.models:
                 continue
-            if any(sl not in pool.models for sl in USES.get(name, [])):
+            if name != "linear_scoring" and any(sl not in pool.models for sl in USES.get(name, [])):
                 continue
             used_model_digest = _used(pool, name)
             models_before = pool.model_digests()
